@@ -155,6 +155,11 @@ func DumpIDL(ast *parser.Thrift) (string, error) {
 					required = "required "
 				}
 				sb.writeString(fmt.Sprintf("%d: %s%s %s", ag.ID, required, typeName(ag.Type), ag.Name))
+				if ag.Default != nil {
+					sb.writeString(" = ")
+					printConstTypedValue(&sb, ag.Default.TypedValue)
+				}
+				printAnnotation(&sb, ag.Annotations)
 				if i != len(f.Arguments)-1 {
 					sb.writeString(", ")
 				}
@@ -171,7 +176,12 @@ func DumpIDL(ast *parser.Thrift) (string, error) {
 						required = "required "
 					}
 					sb.writeString(fmt.Sprintf("%d: %s%s %s", th.ID, required, typeName(th.Type), th.Name))
-					if i != len(f.Arguments)-1 {
+					if th.Default != nil {
+						sb.writeString(" = ")
+						printConstTypedValue(&sb, th.Default.TypedValue)
+					}
+					printAnnotation(&sb, th.Annotations)
+					if i != len(f.Throws)-1 {
 						sb.writeString(", ")
 					}
 				}
